@@ -68,7 +68,8 @@ func verifRefStrict(s []byte, p int) (line []byte, next int, interrupted bool, o
 }
 
 func verifNewBuffer(chunks [][]byte) *trzszBuffer {
-	b := newTrzszBuffer()
+	// same structure as newTrzszBuffer() with a smaller queue (allocation cost only)
+	b := &trzszBuffer{bufCh: make(chan []byte, 64), stopCh: make(chan bool, 1)}
 	for _, c := range chunks {
 		b.addBuffer(c)
 	}
